@@ -707,6 +707,88 @@ def mutable_program(rng):
     return 'def f(a, b):\n' + ''.join('    ' + l + '\n' for l in lines), feats
 
 
+def lazy_nested_program(rng):
+    """Lazy constructs whose lazily evaluated operand contains NESTED calls (only a configuration naming inner
+    positions but not the direct operands can get something out of them); `a` is 0 on one input and non-zero on
+    the others, so both branch outcomes are executed."""
+    lines, t = [], 0
+    feats = set()
+    def deep():
+        nonlocal t
+        t += 3
+        return rng.choice(['tr(%d, tr(%d, b))' % (t, t + 1), 'tr(%d, tr(%d), a)' % (t, t + 1),
+                           'tr(%d, O.m1(tr(%d, a)))' % (t, t + 1), '(tr(%d, tr(%d)) + 1)' % (t, t + 1)])
+    for _ in range(rng.randint(1, 3)):
+        k = rng.choice(['and', 'or', 'ifexp-body', 'ifexp-orelse', 'lambda', 'assert-msg', 'arg-and', 'comp-cond', 'not-and'])
+        feats.add('lazy-nested-' + k)
+        t += 1
+        if k == 'and':
+            lines.append('x%d = a and %s' % (t, deep()))
+        elif k == 'or':
+            lines.append('x%d = a or %s' % (t, deep()))
+        elif k == 'ifexp-body':
+            lines.append('x%d = (%s if a else b)' % (t, deep()))
+        elif k == 'ifexp-orelse':
+            lines.append('x%d = (b if a else %s)' % (t, deep()))
+        elif k == 'lambda':
+            lines.append('x%d = lambda: %s' % (t, deep()))
+            lines.append('x%d = 0' % t)
+        elif k == 'assert-msg':
+            lines.append('x%d = b' % t)
+            lines.append('assert b, %s' % deep())
+        elif k == 'arg-and':
+            lines.append('x%d = tr(%d, a and %s)' % (t, 600 + t, deep()))
+        elif k == 'not-and':
+            lines.append('x%d = tr(%d, (not a) or %s, a)' % (t, 600 + t, deep()))
+        else:
+            lines.append('x%d = tr(%d, [q for q in (a, b) if %s])' % (t, 600 + t, deep()))
+        if rng.random() < 0.5:
+            lines.append('tr(%d, x%d)' % (900 + t, t))
+    lines.append('return tr(999, a)')
+    return 'def f(a, b):\n' + ''.join('    ' + l + '\n' for l in lines), feats
+
+
+def annassign_program(rng):
+    """Annotated locals (with and without value).  Python never evaluates the annotation of a local variable:
+    annotations are undefined names, calls to the tracer with nested calls, multi-parameter subscripts of undefined
+    names.  Placed in the middle and at the end of the function."""
+    t = 0
+    feats = set()
+    def ann():
+        nonlocal t
+        t += 2
+        k = rng.choice(['undefined', 'call', 'nested-call', 'multi-subscript', 'subscript-call'])
+        feats.add('annotation-' + k)
+        return {'undefined': 'Widget', 'call': 'tr(%d, a)' % (500 + t), 'nested-call': 'tr(%d, tr(%d))' % (500 + t, 501 + t),
+                'multi-subscript': 'Dict[str, Widget]', 'subscript-call': 'Mapping[Widget, tr(%d, tr(%d, b))]' % (500 + t, 501 + t)}[k]
+    def val():
+        nonlocal t
+        t += 2
+        return rng.choice(['tr(%d, a)' % t, 'tr(%d, tr(%d, b))' % (t, t + 1), 'a + b', 'b'])
+    lines = ['x0 = tr(1, a)']
+    n = rng.randint(1, 3)
+    for i in range(n):
+        v = 'y%d' % i
+        if rng.random() < 0.7:
+            feats.add('annassign-value')
+            lines.append('%s: %s = %s' % (v, ann(), val()))
+            if rng.random() < 0.5:
+                lines.append('tr(%d, %s)' % (900 + i, v))
+        else:
+            feats.add('annassign-bare')
+            lines.append('%s: %s' % (v, ann()))
+    tail = rng.random()
+    if tail < 0.5:
+        lines.append('return tr(99, x0)')
+    elif tail < 0.75:
+        feats.add('annassign-last')
+        lines.append('z: %s = %s' % (ann(), rng.choice(['a', 'tr(98, b)'])))
+    else:
+        feats.add('annassign-last')
+        lines.append('z: %s' % ann())
+    return 'def f(a, b):\n' + ''.join('    ' + l + '\n' for l in lines), feats
+
+
 INPUTS = [(0, 1), (2, -1), (5, 3)]
 
 # Hand-written programs: the DESIGN §8 witnesses and one per hazard class (always in the corpus).
@@ -724,6 +806,10 @@ FIXED = [
     ('mutable-attr', 'def f(a, b):\n    return (B.n, bump(1), B.n)\n'),
     ('mutable-item', 'def f(a, b):\n    return tr(1, L[0], bump(1), L[0])\n'),
     ('mutable-global', 'def f(a, b):\n    return (G + 1) + bump(1) + (G + 1)\n'),
+    ('lazy-nested-and', 'def f(a, b):\n    x = a and tr(1, tr(2, b))\n    return tr(3, x)\n'),
+    ('lazy-nested-assert', 'def f(a, b):\n    assert b, tr(1, tr(2))\n    return tr(3, a)\n'),
+    ('annotation-nested-call', 'def f(a, b):\n    y: tr(1, tr(2)) = tr(3, a)\n    return tr(4, y)\n'),
+    ('annotation-typing-names', 'def f(a, b):\n    tr(1, a)\n    y: Dict[str, Widget] = b\n'),
     ('dropped-pending', 'def f(a, b):\n    tr(1)\n    x: int = tr(2, tr(3))\n'),
     ('plain-1', 'def f(a, b):\n    x = tr(1, a + b, k=tr(2))\n    return tr(3, x * 2, O.yy)\n'),
     ('plain-2', 'def f(a, b):\n    for v in (tr(1), tr(2, a)):\n        if v < tr(3, v):\n            O[v] = b\n    return tr(4)\n'),
